@@ -252,7 +252,13 @@ func (s *Solver) Check(assertions []*Term, wantModel bool, extraVars []*Term) (R
 		}
 		fmt.Fprintf(&s.buf, "(assert %s)\n", refSMT(a))
 	}
-	s.buf.WriteString("(check-sat)\n")
+	if s.Bin == "cvc5" {
+		s.buf.WriteString("(check-sat)\n")
+	} else {
+		// run the full preprocessing/bit-blasting pipeline on the current goal: the
+		// plain incremental core is orders of magnitude slower on these BV problems
+		s.buf.WriteString("(check-sat-using default)\n")
+	}
 	s.send(s.buf.String())
 	res := Unknown
 	s.LastErr = ""
